@@ -31,7 +31,7 @@ def main():
             print("%-10s (recorded as MISSED - skipped)" % sid)
             continue
         check = m["breaks_property"] if m["breaks_property"] in det else det[0]
-        tier = "thorough" if sid == "C17-w4m2" else "quick"
+        tier = m.get("tier", "quick")
         wt = "/tmp/verifywt_%d" % os.getpid()
         sh("git -C /repo worktree add -q --detach %s HEAD" % wt)
         try:
